@@ -7,7 +7,7 @@ to a unit OBJECT of registry B through a recording subclass of `unyt_array`: `pa
 on the way carried `registry=` (not None) together with `bypass_validation=True`; `rehomed` = afterwards the target
 object's `registry` attribute is no longer B.  `fastAssigns` = the fast path of `unyt_array.__new__` given
 `registry=A, bypass_validation=True` and a unit object of B leaves that object pointing at A.
-Regenerates `Generated/C13Conv.lean` (`convPasses`, `convRehomed`, `convFastAssigns`)."""
+Regenerates `Generated/C13Conv.lean` (`convPasses`, `convRehomed`, `convRelabels`, `convFastAssigns`)."""
 import os
 
 ENTRY_POINTS = ["to", "in_units", "convert_to_units", "ctor_array", "ctor_quantity", "to_value"]
@@ -55,7 +55,7 @@ def generate(X):
             calls.append(dict(kw, _nargs=len(a)))
             return super().__new__(cls, *a, **kw)
 
-    rows, errors = [], []
+    rows, errors, relabel = [], [], {}
     for name in ENTRY_POINTS:
         A, B = UnitRegistry(), UnitRegistry()
         A.add("c13len", 3.0, length)
@@ -63,10 +63,11 @@ def generate(X):
         x = Probe(np.array([1.0, 2.0]), Unit("c13len", registry=A))
         del calls[:]
         try:
-            entry_point(name, x, ub, cls=Probe)
+            ru = entry_point(name, x, ub, cls=Probe)
         except Exception as e:  # noqa: BLE001
             errors.append(f"{name}: {e!r}")
             continue
+        relabel[name] = ru is not None and ru is not ub and ru.registry is A
         passes = any(c.get("registry") is not None and c.get("bypass_validation") is True for c in calls)
         rows.append((name, passes, ub.registry is not B))
     A, B = UnitRegistry(), UnitRegistry()
@@ -88,6 +89,9 @@ def generate(X):
         + "/-- per entry point: afterwards the TARGET unit object of the other registry points at another registry -/\n"
         + "def convRehomed : List (String × Bool) := ["
         + ", ".join(f"({X.lstr(n)}, {b(r)})" for n, _, r in rows) + "]\n\n"
+        + "/-- per entry point: the converted data carry a NEW unit object of the data's registry, not the target object -/\n"
+        + "def convRelabels : List (String × Bool) := ["
+        + ", ".join(f"({X.lstr(n)}, {b(relabel.get(n, False))})" for n, _, _ in rows) + "]\n\n"
         + "/-- `unyt_array(v, u, registry=A, bypass_validation=True)` assigns `u.registry = A` on the object given -/\n"
         + f"def convFastAssigns : Bool := {b(fast)}\n\n"
         + "/-- number of entry points the probe could run -/\n"
@@ -95,4 +99,4 @@ def generate(X):
         + "end Unyt.Generated\n"
     )
     X.write_if_changed(os.path.join(X.GEN, "C13Conv.lean"), text)
-    return {"rows": rows, "fast": fast, "errors": errors}
+    return {"rows": rows, "fast": fast, "relabels": relabel, "errors": errors}
